@@ -23,6 +23,7 @@ RULE = ('random operation histories over {finalize, bind, parse binding, parse m
         'valid configurations holding references (bound macro, constant, @f, @f(), nested, as dict key) must be accepted; unlock_config '
         'is also left by an exception of a gin operation, by closing a generator suspended inside the block, used as a decorator and '
         'through a context manager created in another lock state than the one it is entered in. thorough adds all sequences of '
+        'Hook plans include a hook that restates every bound int by the float comparing equal to it (the update is applied all the same). '
         'length<=4 over a 16-op alphabet. distinct = op-kind sequences')
 TIERS = {
     'quick': {'workers': 8, 'cases': 4200, 'timeout': 600, 'exhaustive_len': 0},
